@@ -171,6 +171,11 @@ def run_shard(ctx):
         edge = float(gens.pick(rng, list(EDGES) + [float(rng.uniform(0.01, np.pi / 2))]))
         step = float(gens.pick(rng, [np.pi, 1.5 * np.pi, 1.9 * np.pi]))
         mask = None if rng.random() < .4 else masks_for(rng, len(phi))[int(rng.integers(2))]
+        if rng.random() < .25:
+            phi, _ = gens.relayout(rng, phi, 'strided')
+            if mask is not None:
+                mask, _ = gens.relayout(rng, mask, 'strided')
+            ctx.count('strided_inputs')
         check(ctx, phi, edge, mask, step, {'kind': 'c13', 'phase': phi, 'phase_edge': edge, 'mask': mask, 'phase_step': step}, 'synthetic')
         if i % 3 == 0:
             # boundary probing: cycles that start / end a hair inside or outside the edge tolerance
